@@ -136,3 +136,18 @@ package vm
 //@   requires s != nil && block != nil
 //@   ensures[carries-the-block] err == nil ==> tx != nil && tx.Block == block
 //@   ensures[changes-hash-is-digest-of-changes] err == nil ==> block.ChangesHash == tx.Changes.digest
+
+// ---- C02: what a block or momentum is executed against does not depend on where the node's frontier is -----------------------
+// The execution context of an account block is the ledger as of the momentum the BLOCK acknowledges, the account chain as of
+// the block's own predecessor, and the pillar data fixed at the acknowledged momentum - never the node's frontier, the
+// time of delivery or a cache keyed by anything else.
+//@ func Supervisor.newBlockContext(s, block) -> (ctx)
+//@   requires s != nil && block != nil
+//@   at-call NewAccountContext assert[ledger-as-of-the-acknowledged-momentum] int(arg0) == s.chain.momentumStoreAt[block.MomentumAcknowledged.Hash][block.MomentumAcknowledged.Height]
+//@   at-call NewAccountContext assert[account-as-of-the-predecessor] len(block.DescendantBlocks) == 0 ==> int(arg1) == s.chain.accountStoreAt[block.Address][block.PreviousHash][(block.Height + pow2(64) - 1) % pow2(64)]
+//@   at-call FixedPillarReader assert[pillars-as-of-the-acknowledged-momentum] arg1.Hash == block.MomentumAcknowledged.Hash && arg1.Height == block.MomentumAcknowledged.Height
+//@   at-call NewAccountContext assert[that-pillar-reader] arg2 == cache
+// A momentum is executed against the ledger as of its stated predecessor.
+//@ func Supervisor.newMomentumContext(s, momentum) -> (ctx)
+//@   requires s != nil && momentum != nil
+//@   at-call NewMomentumVMContext assert[ledger-as-of-the-predecessor] int(arg0) == s.chain.momentumStoreAt[momentum.PreviousHash][(momentum.Height + pow2(64) - 1) % pow2(64)]
